@@ -2,11 +2,14 @@
 
 The real `Module.__pollThread` body runs as the single managed poll thread of a `vlib.sched.Scheduler` (virtual clock,
 1 tick = 2^-10 s, one tick per clock read) over 1..4 generated modules (optionally behind a shared io module), with
-scripted durations/failures of `doPoll` / `read_*` / `initialReads` / the start-up writes (in the start-up round and in
-the `writeInitParams` calls behind it), and an 'actor' thread changing intervals, switching
+scripted durations/failures of `doPoll` / `read_*` / `initialReads` / the write functions of the start values (called by
+`writeInitParams` in the start-up round and behind it; parameters of every kind of declaration — polled, `@nopoll`, handlers
+with nopoll, no read function — get start values), and an 'actor' thread changing intervals, switching
 fast polling, triggering and simulating reconnects.  A 'stopper' thread aborts the run at the virtual deadline.
 
-Recorded per run: every call the poll thread makes (start, module, function, duration), what the environment did
+Recorded per run: every function of a module the poll thread's own code calls — `doPoll` / `read_*` through `callPollFunc`,
+`initialReads`, and every `read_<p>` / `write_<p>` it calls directly, wherever (inside `writeInitParams`, in the round, in
+the loop) — as (start, module, function, duration); what the environment did
 (clock advances, durations, outcomes, time stamps set, actions of the actor) — the latter is fed to the Lean `turn`,
 which has to reproduce the call list; the call list itself is judged by the Lean monitors (Spec/C13.lean).
 Nothing about the property is decided here.
@@ -26,10 +29,13 @@ MAX_CALLS = 40000        # a run is also ended (like at the virtual deadline) af
 META = {
     'level_text': 'Theorems over the Lean model of the poll thread body (Timed/Poller.lean) and of the poll flag computation '
                   '(Timed/PollFlags.lean), all proved in full: errors_contained (successor state and call list of a turn independent '
-                  'of every outcome, every environment), late_writes_contained / errors_contained_after_round (the writeInitParams '
-                  'calls the repaired thread makes behind its start-up round - one per module, whatever any of them raises - and '
-                  'everything after them are independent of every outcome), nopoll_never_read (the monitor clause NoPollNeverRead for every trace of '
-                  'prologue + any number of turns, every environment), poll_flags_mark / polled_is_mayPoll (the flag the thread tests is '
+                  'of every outcome, every environment), startup_writes_call_no_read (writeInitParams, modelled call by call: exactly the '
+                  'write functions of the start values still in writeDict, in order, no read function and no poll function, independent '
+                  'of every outcome, nothing left afterwards), late_writes_contained / errors_contained_after_round (the writeInitParams '
+                  'calls the repaired thread makes behind its start-up round - for every module what it has still to write, whatever any '
+                  'write raises - and everything after them are independent of every outcome), nopoll_never_read (the monitor clause '
+                  'NoPollNeverRead for every trace of prologue - incl. every function writeInitParams calls - + any number of turns, every '
+                  'environment, whatever start values are pending), poll_flags_mark / polled_is_mayPoll (the flag the thread tests is '
                   'set exactly for parameters not marked as not polled, every kind of declaration), interval_change_triggers / _wakes / '
                   '_next_wakeup / _not_lost / _in_window (every environment, incl. actions between wait and clear), '
                   'interval_follows_commands (PollInfo.interval = the interval the module was told, every sequence of actions), '
@@ -53,8 +59,13 @@ META = {
                   'outside the model.',
     'trusted': [
         'virtual time: every clock read advances by >= 1 tick; durations are those the fake drivers sleep on the patched clock',
-        'instrumentation: mobj.callPollFunc / writeInitParams / triggerPoll.wait / triggerPoll.clear are wrapped on the instances (the originals run inside); '
-        'every writeInitParams call of the poll thread is a call of kind w, every initialReads (generated) a call of kind i',
+        'instrumentation: mobj.callPollFunc / every mobj.read_<p> and mobj.write_<p> / triggerPoll.wait / triggerPoll.clear are wrapped on the '
+        'instances (the originals run inside); a read_<p> / write_<p> entered by the poll thread while none of the generated bodies '
+        '(doPoll, initialReads, read and write functions = the module\'s own code) is active counts as called by the poller; code of the '
+        'poll thread that reached a read function by another route than the instance attribute (e.g. through the class) is seen only when the '
+        'parameter has a generated read function body (recorded there); a write function reached that way is not recorded as a call',
+        'the recipe of the generated configuration (given_of: which parameters are given a value); what module initialisation enters into '
+        'writeDict is computed by the model (givenIdx) from it and compared with the real writeDict in every scenario',
         'the recipe of the generated classes (decls_of: how each read function is declared; enablePoll) as reported to the judge',
         'BaseException (SystemExit, KeyboardInterrupt) is deliberately not contained by callPollFunc and is outside the statement',
     ],
@@ -63,6 +74,8 @@ META = {
         'accessLock, logging, the bodies of the read wrappers (only their poll flag is modelled)',
         'IOBase.callCallbacks (the reconnect callback trigger_all is invoked through it)',
         'actions of other threads after clear() returned and before the next clock read, and between modules of a sweep without a call (no slot in the model, not generated)',
+        'the write wrapper of HasAccessibles (validate, check functions, announceUpdate) around each write function: its time stamps reach the model as environment, a read function it called would be an event',
+        'write handlers (WriteHandler / CommonWriteHandler) and other threads taking entries out of writeDict while writeInitParams runs (the `value is not Done` test): not generated',
     ],
     'assumptions': ['slowinterval > 0 (datatype FloatRange(0.1, 120)); poll intervals >= 0',
                     'time stamps given to parameters are not in the future'],
@@ -101,6 +114,7 @@ class Rec:
         self.ext_begin = None
         self.outcome = 'ok'
         self.nested = []         # (t, m, fname) reads made from inside doPoll / initialReads
+        self.inner = []          # [t, m, p, d]: read functions the poll thread's own code called while another of its calls was open
         self.stamps = {}         # (m, p) -> last seen timestamp
         self.track = []          # (m, p, pobj)
         self.in_wait = False
@@ -169,6 +183,7 @@ class Rec:
         c['d'] = self.now() - c['t']
         c['o'] = self.outcome
         c['touch'] = self.touches()
+        c.setdefault('k', [])        # entries the call itself took out of its module's writeDict (write functions only)
         c['x'] = self.pending_ext
         if not c['x'] and not self.flag0 and self.event is not None and self.event.is_set():
             # the trigger event was set from inside the call (e.g. writeInitParams writing the configured pollinterval
@@ -231,6 +246,7 @@ def _script_next(rec, key, script):
 def build_classes(rec, spec_mods, T):
     """one generated class per module spec"""
     from frappy.core import Module, Readable, Parameter, FloatRange, nopoll, ReadHandler, CommonReadHandler
+    from frappy.rwhandler import CommonWriteHandler
     from frappy.io import IOBase, HasIO
 
     classes = []
@@ -243,6 +259,11 @@ def build_classes(rec, spec_mods, T):
             top = rec.depth == 0
             if not top:
                 rec.nested.append((rec.now(), self.name, fname))
+            # the body of a read function runs in the poll thread although neither a module's own code nor a recorded call
+            # of the poll thread is active: the thread's code reached it by a route the instance wrappers do not see
+            # (through the class, say) — still a read by the poller: an event for the judge, no slot in the model
+            stray = top and rec.poller is not None and rec.is_poller() and rec.cur is None
+            t0 = rec.now()
             rec.depth += 1
             try:
                 rec.handoff()
@@ -256,6 +277,8 @@ def build_classes(rec, spec_mods, T):
                 raise
             finally:
                 rec.depth -= 1
+                if stray and fname[5:] in self.parameters and self.name in rec.index:
+                    rec.inner.append([t0, rec.index[self.name], list(self.parameters).index(fname[5:]), rec.now() - t0])
 
         groups = {}
         for p in spec['params']:
@@ -342,18 +365,61 @@ def build_classes(rec, spec_mods, T):
                 rec.end()
         ns['initialReads'] = initialReads
 
+        def make_write(name, d, o):
+            # the write function of a start value (called by writeInitParams): takes time, fails in every way a read can
+            def wf(self, value, _d=d, _o=o):
+                rec.depth += 1
+                try:
+                    rec.handoff()
+                    if _d:
+                        T.sleep(_d / TICKS)
+                    _raise(_o)
+                    return value
+                finally:
+                    rec.depth -= 1
+            wf.__name__ = 'write_' + name
+            return wf
+
         if spec.get('written'):
             ns['w'] = Parameter('written at start', FloatRange(), default=0, readonly=False)
-
             wd, wo = spec.get('wscript', [0, 'ok'])
+            ns['write_w'] = make_write('w', wd, wo)
+        for p in spec['params']:
+            # a generated parameter of any kind of declaration (plain / @nopoll / no read function / read handler /
+            # common read handler, with or without nopoll) may have a start value and a write function
+            if p.get('w') and p['name'] not in ('value', 'status'):
+                ns[p['name']] = Parameter('generated, written at start', FloatRange(), default=0, readonly=False)
+                if p.get('wg') is None:
+                    ns['write_' + p['name']] = make_write(p['name'], p['w'][0], p['w'][1])
+        # start values written through a common write handler: one function for the whole group; when it fetches the
+        # values of the other members (`values.as_tuple(...)`) these are taken out of writeDict by that very call
+        wgroups = {}
+        for p in spec['params']:
+            if p.get('w') and p.get('wg') is not None and p['name'] not in ('value', 'status'):
+                wgroups.setdefault(p['wg'], []).append(p)
+        for g, members in wgroups.items():
+            wkeys = tuple(p['name'] for p in members)
+            wscripts = {p['name']: p['w'] for p in members}
+            fetch = members[0].get('wfetch', 'all')
 
-            def write_w(self, value, _d=wd, _o=wo):
-                # the write of the configured value at start-up (inside writeInitParams, i.e. inside a 'w' call)
-                if _d:
-                    T.sleep(_d / TICKS)
-                _raise(_o)
-                return value
-            ns['write_w'] = write_w
+            def cwf(self, values, _keys=wkeys, _sc=wscripts, _fetch=fetch):
+                own = next(iter(values))          # the member being written
+                d, o = _sc[own]
+                rec.depth += 1
+                try:
+                    rec.handoff()
+                    if _fetch == 'all':
+                        values.as_tuple(*_keys)
+                    if d:
+                        T.sleep(d / TICKS)
+                    _raise(o)
+                    for kname in list(values):
+                        setattr(self, kname, values[kname])
+                finally:
+                    rec.depth -= 1
+            cwf.__name__ = 'write_wgroup%d' % g
+            cwf.__qualname__ = 'Gen%d.write_wgroup%d' % (mi, g)
+            ns['write_wgroup%d' % g] = CommonWriteHandler(wkeys)(cwf)
         if not spec.get('enabled', True):
             ns['enablePoll'] = False
 
@@ -401,6 +467,75 @@ def decls_of(spec, mobj):
                 first = [q['name'] for q in spec['params'] if q['kind'] == 'common' and q['group'] == p['group']][0]
                 k = 'commonFirst' if n == first else 'commonRest'
             res.append([k, np_ == 'inner', np_ == 'outer'])
+    return res
+
+
+def _wrap_read(rec, orig, i, pid):
+    import functools
+
+    @functools.wraps(orig)          # keeps __name__ and the `poll` flag the thread tests
+    def rw(*args, **kwds):
+        if rec.poller is None or not rec.is_poller() or rec.depth > 0:
+            return orig(*args, **kwds)          # another thread, or the module's own code
+        cur = rec.cur
+        if cur is None:
+            # called by the poll thread's own code, not through callPollFunc: a call of its own
+            rec.begin(i, pid)
+            try:
+                return orig(*args, **kwds)
+            except BaseException as e:
+                if type(e).__name__ != 'SchedAbort' and rec.outcome == 'ok':
+                    rec.outcome = _classify(e)
+                raise
+            finally:
+                if rec.cur is not None:
+                    rec.end()
+        if cur['m'] == i and cur['f'] == pid and not cur.get('entered'):
+            cur['entered'] = True               # the call callPollFunc was asked to make
+            return orig(*args, **kwds)
+        t0 = rec.now()                          # inside another call of the poll thread (say, from the write wrapper)
+        try:
+            return orig(*args, **kwds)
+        finally:
+            rec.inner.append([t0, i, pid, rec.now() - t0])
+    return rw
+
+
+def _wrap_write(rec, orig, i, pid, mobj, names):
+    import functools
+
+    @functools.wraps(orig)
+    def ww(*args, **kwds):
+        if rec.poller is None or not rec.is_poller() or rec.depth > 0 or rec.cur is not None:
+            return orig(*args, **kwds)
+        rec.begin(i, ['w', pid])                # `write_<p>(value)` called by the poll thread's own code (writeInitParams)
+        before = list(mobj.writeDict)           # (the entry being written has been taken out by writeInitParams already)
+        try:
+            return orig(*args, **kwds)
+        except BaseException as e:
+            if type(e).__name__ != 'SchedAbort':
+                rec.outcome = _classify(e)
+            raise
+        finally:
+            if rec.cur is not None:
+                # what the write function itself took out of writeDict (a common write handler fetching the other
+                # members of its group): environment for the model
+                rec.cur['k'] = [names.index(n) for n in before if n not in mobj.writeDict and n in names]
+                rec.end()
+    return ww
+
+
+def given_of(spec, mobj):
+    """which parameters (in `mobj.parameters` order) the GENERATED configuration / class gives a value: the recipe, not the
+    `writeDict` the framework filled (that one is compared with what the model makes of this, see `flags`)"""
+    res = []
+    for n in mobj.parameters:
+        if n == 'pollinterval':
+            res.append(spec['base'] in ('io', 'readable'))       # cfg: {'value': …} (for a plain Module it is a property)
+        elif n == 'w':
+            res.append(bool(spec.get('written')))
+        else:
+            res.append(any(p['name'] == n and p.get('w') for p in spec['params']))
     return res
 
 
@@ -483,6 +618,9 @@ def impl_run(case):
                 c['io'] = 'm0'
             if spec.get('written'):
                 c['w'] = {'value': 1.0}
+            for p in spec['params']:
+                if p.get('w') and p['name'] not in ('value', 'status'):
+                    c[p['name']] = {'value': 1.0}
             cfg['m%d' % mi] = c
         node = Node(cfg)
         if node.errors:
@@ -497,7 +635,7 @@ def impl_run(case):
         rec.index = index
         spec_of = {('m%d' % mi): spec for mi, spec in enumerate(spec_mods)}
 
-        model_mods, judge_mods, impl_flags = [], [], []
+        model_mods, judge_mods, impl_flags, impl_pending = [], [], [], []
         for i, mobj in enumerate(thread_mods):
             spec = spec_of[mobj.name]
             decls = decls_of(spec, mobj)
@@ -516,8 +654,11 @@ def impl_run(case):
                     rec.track.append((i, pid, pobj))
                     rec.stamps[(i, pid)] = pobj.timestamp or 0
             iv = _tick(mobj.pollinterval)
+            # what module initialisation has put into `writeDict` (the start values the thread has to write): the model
+            # computes it from which parameters are given a value; compared in the `flags` stream
+            impl_pending.append([names.index(n) if n in names else -1 for n in mobj.writeDict])
             model_mods.append({'enabled': enabled, 'slow': _tick(mobj.slowinterval), 'decls': decls,
-                               'pollinterval': iv, 'interval': iv, 'stamps': stamps})
+                               'pollinterval': iv, 'interval': iv, 'stamps': stamps, 'given': given_of(spec, mobj)})
             judge_mods.append({'enabled': enabled, 'slow': _tick(mobj.slowinterval), 'decls': decls,
                                'pollinterval': iv, 'cmds': [], 'names': names})
             rec.cmds[i] = judge_mods[-1]['cmds']
@@ -542,15 +683,17 @@ def impl_run(case):
                         rec.end()
             mobj.callPollFunc = cpf
 
-            def wip(_orig=mobj.writeInitParams, _i=i):
-                # every `writeInitParams` of the poll thread — in the start-up round and behind it — is a call of its own ('w')
-                rec.begin(_i, 'w')
-                try:
-                    return _orig()
-                finally:
-                    if rec.cur is not None:
-                        rec.end()
-            mobj.writeInitParams = wip
+            # every read function and every write function of the module, as the poll thread's own code finds them
+            # (`getattr(mobj, 'read_' + pname)`): what the framework code of the poll thread calls — in the loop, in
+            # the start-up round, inside writeInitParams, anywhere — is an observation; what a module's own doPoll /
+            # initialReads / read / write function calls in turn (rec.depth > 0) is not.
+            for pid, n in enumerate(list(mobj.parameters)):
+                orig_r = getattr(mobj, 'read_' + n, None)
+                if orig_r is not None:
+                    mobj.__dict__['read_' + n] = _wrap_read(rec, orig_r, i, pid)
+                orig_w = getattr(mobj, 'write_' + n, None)
+                if orig_w is not None:
+                    mobj.__dict__['write_' + n] = _wrap_write(rec, orig_w, i, pid, mobj, list(mobj.parameters))
 
         ev = owner.triggerPoll
         rec.event = ev
@@ -712,7 +855,7 @@ def impl_run(case):
             b = None
             if idx is not None and rec.poller is not None:
                 b = note_ext(['ui', idx, _tick(pollinterval)])
-                if rec.is_poller() and rec.cur is not None and rec.cur['f'] == 'w':
+                if rec.is_poller() and rec.cur is not None and isinstance(rec.cur['f'], list):
                     # writeInitParams writes the configured poll interval: the module is TOLD its interval, like by any other
                     # assignment — recorded for the judge where it is issued.  (Behind a start-up round that a communication
                     # failure broke off this happens after the start-up callback, i.e. it can come after a client's change.)
@@ -750,6 +893,7 @@ def impl_run(case):
         'names': [m['names'] for m in judge_mods],
         'order': [m.name for m in thread_mods],
         'impl_flags': impl_flags,
+        'impl_pending': impl_pending,
         'calls': rec.calls,
         'incomplete': rec.incomplete,
         'advs': rec.advs,
@@ -767,6 +911,7 @@ def impl_run(case):
         'started': state['started'],
         'eps': rec.eps,
         'nested': len(rec.nested),
+        'inner': rec.inner,
         'sched': {k: out[k] for k in ('aborted', 'steps', 'deadlock')},
     }
     return obs
@@ -777,7 +922,7 @@ def fn_json(f):
 
 
 def flags_requests(obs):
-    return [{'p': 'C13', 'k': 'flags', 'decls': m['decls']} for m in obs['model_mods']]
+    return [{'p': 'C13', 'k': 'flags', 'decls': m['decls'], 'given': m['given']} for m in obs['model_mods']]
 
 
 def model_request(obs):
@@ -785,14 +930,18 @@ def model_request(obs):
     return {'p': 'C13', 'k': 'run', 'clock': obs['clock0'],
             'mods': obs['model_mods'], 'adv': obs['advs'],
             'calls': [{'d': c['d'], 'o': MODEL_OUTCOME[c['o']] if c['o'] in MODEL_OUTCOME else c['o'],
-                       't': c['touch'], 'x': c['x']} for c in obs['calls']],
+                       't': c['touch'], 'x': c['x'], 'k': c.get('k', [])} for c in obs['calls']],
             'waits': obs['waits'], 'gaps': obs['gaps']}
 
 
 def judge_request(obs):
     touches = [t for c in obs['calls'] for t in c['touch']]
+    evs = [[c['t'], c['m'], c['f'], c['d']] for c in obs['calls']] + ([obs['incomplete']] if obs.get('incomplete') else [])
+    if obs.get('inner'):
+        # read functions called by the poll thread's own code inside another of its calls: events like any other
+        evs = sorted(evs + obs['inner'], key=lambda e: e[0])
     return {'p': 'C13', 'k': 'judge', 'mods': obs['judge_mods'],
-            'evs': [[c['t'], c['m'], c['f'], c['d']] for c in obs['calls']] + ([obs['incomplete']] if obs.get('incomplete') else []),
+            'evs': evs,
             'touches': touches, 'loopStart': obs['loopStart'], 'tEnd': obs['tEnd'], 'alive': obs['alive'],
             'eps': obs['eps']}
 
@@ -864,6 +1013,17 @@ def gen_case(rng, big, T):
             params.append({'name': names[i], 'kind': kind, 'script': gen_script(rng, heavy and rng.random() < 0.3, failing),
                            'values': rng.choice(['changing', 'changing', 'constant'])})
             i += 1
+        for p in params:
+            # a start value (configured) and a write function for it: any kind of declaration, polled or not
+            if p['name'] not in ('value', 'status') and rng.random() < 0.3:
+                p['w'] = [rng.choice([0, 0, 16, 256]), rng.choice(['ok', 'ok', 'ok'] + OUTCOMES[1:])]
+        wr = [p for p in params if p.get('w')]
+        if len(wr) >= 2 and rng.random() < 0.4:
+            # some of the start values go through one common write handler
+            fetch = rng.choice(['all', 'all', 'own'])
+            for p in rng.sample(wr, rng.choice([2, 2, 3]) if len(wr) >= 3 else 2):
+                p['wg'] = 1
+                p['wfetch'] = fetch
         readable_names = [p['name'] for p in params if p['kind'] in ('read', 'nopoll', 'handler')]
         spec = {'base': base, 'has_io': with_io,
                 'pollinterval': rng.choice(POLL_IV), 'slow': rng.choice(SLOW_IV), 'params': params,
@@ -1005,7 +1165,29 @@ def decl_catalogue():
                         {'name': 'c', 'kind': 'none', 'script': [[4, 'ok']]}],
              'doPoll': [[4, 'ok']], 'doPollReads': ['b'], 'init': [[0, 'ok']], 'initReads': [], 'enabled': True}
     io = {'base': 'io', 'pollinterval': 5120, 'slow': 4096, 'params': [], 'enabled': True, 'doPoll': [[0, 'ok']], 'init': [[0, 'ok']]}
-    return [{'mods': [io, mod('handler'), mod('common'), plain], 'actions': [], 'wactions': [], 'T': 30 * TICKS, 'start': 1000}]
+    cases = [{'mods': [io, mod('handler'), mod('common'), plain], 'actions': [], 'wactions': [], 'T': 30 * TICKS, 'start': 1000}]
+    # the same declarations, every parameter with a start value and a write function: written in the start-up round;
+    # and once more with the round broken off by a communication failure in the first module behind the io module, so that
+    # the start values of the others are written by the `writeInitParams` calls behind the round
+    import copy
+    for first_init, outcomes, wgroups in (([[0, 'ok']], ['ok'], False), ([[4, 'comm']], ['ok'], False),
+                                          ([[0, 'ok']], ['ok', 'secop', 'zd', 'comm', 'silent', 'key'], False),
+                                          ([[4, 'comm']], ['ok', 'ok', 'zd'], True)):
+        mods = copy.deepcopy([io, mod('handler'), mod('common'), plain])
+        only_written = copy.deepcopy(plain)
+        only_written['enabled'] = False
+        mods.append(only_written)
+        for k, m in enumerate(mods[1:]):
+            for j, p in enumerate(m['params']):
+                p['w'] = [4, outcomes[(j + k) % len(outcomes)]]
+                if wgroups and j < 3:
+                    # the first three start values of every module through one common write handler; the handler
+                    # fetches the other members (taking them out of writeDict) in every second module
+                    p['wg'] = 1
+                    p['wfetch'] = 'all' if k % 2 == 0 else 'own'
+        mods[1]['init'] = first_init
+        cases.append({'mods': mods, 'actions': [], 'wactions': [], 'T': 30 * TICKS, 'start': 1000})
+    return cases
 
 
 def window_catalogue():
@@ -1088,6 +1270,25 @@ BOUNDARY = [
                'doPoll': [[0, 'ok']], 'doPollReads': [], 'init': [[0, 'ok']], 'initReads': [], 'enabled': False,
                'written': True, 'wscript': [16, 'comm']}],
      'actions': [{'at': 100, 'op': 'fast', 'm': 2, 'flag': True, 'v': 64}], 'T': 40 * TICKS, 'start': 1000},
+    # wake-ups driven by slow intervals alone: every poll interval on the thread is much longer than the slow interval of
+    # one module, the slow intervals differ, and that module is not the owner of the thread (first scenario) / is the
+    # owner (second scenario); nobody triggers
+    {'mods': [{'base': 'io', 'pollinterval': 10240, 'slow': 15360, 'params': [], 'enabled': True, 'doPoll': [[8, 'ok']], 'init': [[0, 'ok']]},
+              {'base': 'readable', 'has_io': True, 'pollinterval': 10240, 'slow': 512,
+               'params': [{'name': 'a', 'kind': 'read', 'script': [[8, 'ok']]}, {'name': 'b', 'kind': 'read', 'script': [[8, 'silent']]}],
+               'doPoll': [[8, 'ok']], 'doPollReads': [], 'init': [[0, 'ok']], 'initReads': [], 'enabled': True},
+              {'base': 'module', 'has_io': True, 'pollinterval': 5120, 'slow': 1024,
+               'params': [{'name': 'a', 'kind': 'read', 'script': [[8, 'ok']]}],
+               'doPoll': [[8, 'ok']], 'doPollReads': [], 'init': [[0, 'ok']], 'initReads': [], 'enabled': True}],
+     'actions': [], 'T': 60 * TICKS, 'start': 1000},
+    {'mods': [{'base': 'io', 'pollinterval': 10240, 'slow': 512, 'params': [], 'enabled': True, 'doPoll': [[8, 'ok']], 'init': [[0, 'ok']]},
+              {'base': 'readable', 'has_io': True, 'pollinterval': 10240, 'slow': 15360,
+               'params': [{'name': 'a', 'kind': 'read', 'script': [[8, 'ok']]}],
+               'doPoll': [[8, 'ok']], 'doPollReads': [], 'init': [[0, 'ok']], 'initReads': [], 'enabled': True},
+              {'base': 'module', 'has_io': True, 'pollinterval': 5120, 'slow': 2048,
+               'params': [{'name': 'a', 'kind': 'read', 'script': [[8, 'zd']]}, {'name': 'b', 'kind': 'read', 'script': [[8, 'ok']]}],
+               'doPoll': [[8, 'ok']], 'doPollReads': [], 'init': [[0, 'ok']], 'initReads': [], 'enabled': True}],
+     'actions': [], 'T': 60 * TICKS, 'start': 1000},
 ]
 
 
@@ -1095,10 +1296,22 @@ BOUNDARY = [
 def classify_violation(obs, judge):
     if not judge['alive']:
         last = obs['calls'][-1] if obs['calls'] else None
-        where = 'start' if last is None else {'i': 'initialReads', 'w': 'writeInitParams', 'd': 'doPoll'}.get(last['f'], 'read')
+        where = ('start' if last is None else 'writeInitParams' if isinstance(last['f'], list)
+                 else {'i': 'initialReads', 'd': 'doPoll'}.get(last['f'], 'read'))
         return f'C13:thread-died:{where}'
     if not judge['nopoll']:
-        return 'C13:nopoll-read'
+        # which kind of declaration the offending read function has (for the signature only): one with an explicit
+        # nopoll mark if there is one among the reported calls, else the first reported call
+        kinds = []
+        for e in judge.get('bad_nopoll', []):
+            m, f = e[1], e[2]
+            if isinstance(f, int) and m < len(obs['model_mods']) and f < len(obs['model_mods'][m]['decls']):
+                d = obs['model_mods'][m]['decls'][f]
+                kinds.append(d[0] + ('.nopoll' if d[1] or d[2] else ''))
+            else:
+                kinds.append('doPoll' if f == 'd' else 'other')
+        marked = [k for k in kinds if k.endswith('.nopoll')]
+        return 'C13:nopoll-read:' + (marked[0] if marked else kinds[0] if kinds else 'unknown')
     if not judge['main_gap']:
         return 'C13:main-gap'
     return 'C13:slow-refresh'
@@ -1111,7 +1324,15 @@ def describe(obs, judge):
                 f'{last and (obs["order"][last["m"]], last["f"], last["o"])}; no module of the thread is polled afterwards')
     parts = []
     if not judge['nopoll']:
-        parts.append(f'the poller called a function it must not: {judge["bad_nopoll"]}')
+        def named(e):
+            m, f = e[1], e[2]
+            if isinstance(f, int) and m < len(obs['names']) and f < len(obs['names'][m]):
+                d = obs['model_mods'][m]['decls'][f]
+                return '%s.read_%s (declared: %s%s) at %d' % (obs['order'][m], obs['names'][m][f], d[0],
+                                                             ', nopoll' if d[1] or d[2] else '', e[0])
+            return '%s.%s at %d' % (obs['order'][m] if m < len(obs['order']) else m, f, e[0])
+        parts.append(f'the poller called a function it must not: {judge["bad_nopoll"]} = '
+                     + '; '.join(named(e) for e in judge['bad_nopoll']))
     if not judge['main_gap']:
         parts.append(f'main poll later than interval + one sweep (sweep={judge["sweep"]} ticks): '
                      f'[module, previous start, next start/end, limit] = {judge["bad_main"][:3]}')
@@ -1127,6 +1348,7 @@ def ask(ctx, obs):
         if 'driver_error' in f:
             raise RuntimeError(f'driver error: {f}')
     obs['model_flags'] = [f['flags'] for f in a[2:]]
+    obs['model_pending'] = [f['pending'] for f in a[2:]]
     return a[0], a[1]
 
 
@@ -1177,7 +1399,8 @@ def shrink_case(ctx, case, sig):
 def run(ctx):
     res = Result()
     res.rule = ('generated scenarios: 1..4 modules on one poll thread (with/without shared io), poll intervals 0..10 s, slow intervals '
-                '0.125..15 s, scripted durations 0..2 s and outcomes of doPoll/read_*/initialReads, run-time interval changes / '
+                '0.125..15 s, scripted durations 0..2 s and outcomes of doPoll/read_*/initialReads and of the write functions of start values '
+                '(parameters of every kind of declaration, plain and common write handlers), run-time interval changes / '
                 'fast poll / triggers / reconnect; non-trivial = at least two enabled modules or a failing function, at least 20 '
                 'main polls, at least one slow poll, at least one wait')
     big = ctx.tier == 'thorough' or ctx.escalated
@@ -1235,9 +1458,19 @@ def run(ctx):
         res.count('interval0' if zero_interval(case) else 'interval>0')
         res.count('failing-calls=%s' % ('0' if not fails else '1-9' if fails < 10 else '10+'))
         res.count('startup-abort' if model.get('aborted') else 'startup-complete')
-        late = [c for c in obs['calls'] if c['f'] == 'w']
-        if any(c['d'] > 0 for c in late):
+        wcalls = [c for c in obs['calls'] if isinstance(c['f'], list)]
+        if any(c['d'] > 0 and obs['started'] is not None and c['t'] >= obs['started'] for c in wcalls):
             res.count('late-write-takes-time')
+        res.count('startup-write-calls=%s' % ('0' if not wcalls else '1-3' if len(wcalls) < 4 else '4+'))
+        if any(c.get('k') for c in wcalls):
+            res.count('write-handler-took-entries-out-of-writeDict')
+        for k, m in enumerate(case['mods']):
+            pos = obs['order'].index('m%d' % k)
+            names_k, decls_k = obs['names'][pos], obs['model_mods'][pos]['decls']
+            for p in m['params']:
+                if p.get('w') and p['name'] in names_k:
+                    d = decls_k[names_k.index(p['name'])]
+                    res.count('start-value.%s%s.%s' % (d[0], '.nopoll' if d[1] or d[2] else '', p['w'][1]))
         if any(m.get('doPollActs') for m in case['mods']):
             res.count('commands-from-own-doPoll')
         for m in case['mods']:
@@ -1260,8 +1493,12 @@ def run(ctx):
             if obs['model_flags'] != obs['impl_flags']:
                 res.disagreements.append({'case': case, 'model': {'poll_flags': obs['model_flags']},
                                           'impl': {'poll_flags': obs['impl_flags'], 'decls': [m['decls'] for m in obs['model_mods']]}})
-            elif obs.get('drift'):
-                res.disagreements.append({'case': case, 'model': 'no slot for what the implementation did', 'impl': obs['drift']})
+            elif obs['model_pending'] != obs['impl_pending']:
+                res.disagreements.append({'case': case, 'model': {'writeDict': obs['model_pending']},
+                                          'impl': {'writeDict': obs['impl_pending'], 'given': [m['given'] for m in obs['model_mods']]}})
+            elif obs.get('drift') or obs.get('inner'):
+                res.disagreements.append({'case': case, 'model': 'no slot for what the implementation did',
+                                          'impl': obs['drift'] or f'read functions called by the poll thread inside another of its calls: {obs["inner"][:3]}'})
             elif mevs != evs or (obs['calls'] and model['loopStart'] != obs['loopStart'] and obs['advs']):
                 k = next((i for i, (x, y) in enumerate(zip(mevs, evs)) if x != y), min(len(mevs), len(evs)))
                 res.disagreements.append({'case': case, 'model': {'first_diff': k, 'evs': mevs[max(0, k - 2):k + 3], 'n': len(mevs),
